@@ -27,6 +27,8 @@ func main() {
 		replayF  = flag.String("replay", "", "re-run a replay file")
 	)
 	flag.Parse()
+	// type aliases (type Box = bo.Box) are resolved to their targets by go/types
+	os.Setenv("GODEBUG", "gotypesalias=0")
 	if s := os.Getenv("VERIF_SEED"); s != "" && *seed == 0 {
 		fmt.Sscanf(s, "%d", seed)
 	}
@@ -73,6 +75,7 @@ func main() {
 		}
 		return false
 	}
+	funcFilter = *funcs != ""
 	var results []*funcResult
 	for _, tg := range eng.targets {
 		if !serves(tg.c.Props) {
